@@ -48,6 +48,7 @@ class RSocketClient(RSocketBase):
         self._next_transport = asyncio.Future()
         self._reconnect_task = asyncio.create_task(self._reconnect_listener())
         self._keepalive_task = None
+        self._notifying_keepalive_timeout = False
 
         super().__init__(handler_factory=handler_factory,
                          honor_lease=honor_lease,
@@ -192,10 +193,18 @@ class RSocketClient(RSocketBase):
 
                 if time_since_last_keepalive > self._max_lifetime_period:
                     self._is_server_alive = False
-                    await self._handler.on_keepalive_timeout(
-                        time_since_last_keepalive,
-                        self
-                    )
+                    self._notifying_keepalive_timeout = True
+
+                    try:
+                        await self._handler.on_keepalive_timeout(
+                            time_since_last_keepalive,
+                            self
+                        )
+                    finally:
+                        self._notifying_keepalive_timeout = False
+
+                    if self._is_closing:
+                        return  # the handler closed the connection
         except asyncio.CancelledError:
             logger().debug('%s: Asyncio task canceled: keepalive_timeout', self._log_identifier())
 
@@ -205,4 +214,7 @@ class RSocketClient(RSocketBase):
         try:
             await super()._receiver_listen()
         finally:
-            await cancel_if_task_exists(keepalive_timeout_task)
+            # A handler which closes the connection from on_keepalive_timeout is waiting for this task to end:
+            # it cannot be waited for in turn. It stops by itself once the handler returns.
+            if not self._notifying_keepalive_timeout:
+                await cancel_if_task_exists(keepalive_timeout_task)
